@@ -369,6 +369,40 @@ Definition splice (buf : bytes) (pos : nat) (src : bytes) : res bytes :=
   if (length buf <? pos + 32)%nat then Panic       (* buf[digestPos : digestPos+32] *)
   else let s := firstn 32 src in Ok (firstn pos buf ++ s ++ skipn (pos + length s) buf).
 
+(* the signature step of MakeInterest: wire[idx] = sigVal, last length octet patched *)
+Definition int_sig_block (wire : list bytes) (idx : option nat) (cov : list bytes) (est : N) : res (list bytes * N * list bytes) :=
+  if 0 <? est then
+    match idx with
+    | None => Err                                           (* SignatureValue_wireIdx < 0 *)
+    | Some ix =>
+        match sign cov with
+        | None => Err
+        | Some sv => if est <? blen sv then Err else do w1 <- patch_sig wire ix sv; Ok (w1, blen sv, cov)
+        end
+    end
+  else Ok (wire, 0, []).
+
+(* the parameters-digest step of MakeInterest *)
+Definition int_digest_block (wire1 : list bytes) (npos : nat) (app : option (list bytes)) (nm1 : name) : res (list bytes * name) :=
+  match wire1 with
+  | [] => Panic
+  | b0 :: rest =>
+      match parse_tlnum b0 with
+      | None => Panic
+      | Some (_, s1) =>
+          match parse_tlnum (skipn s1 b0) with
+          | None => Panic
+          | Some (_, s2) =>
+              let dpos := (npos + s1 + s2)%nat in
+              let aplen := tl_len (wire_len (match app with Some a => a | None => [] end)) in
+              if (length b0 <? aplen + 1)%nat then Panic else
+              let h := sha256 (skipn (length b0 - aplen - 1) b0 ++ concat rest) in
+              do b0' <- splice b0 dpos h;
+              Ok (b0' :: rest, removelast nm1 ++ [mkc 2 (firstn 32 h ++ skipn (length (firstn 32 h)) zeros32)])
+          end
+      end
+  end.
+
 Definition make_interest (nm : name) (cfg : iconfig) (app : option (list bytes)) (sg : option signer) : res encoded :=
   let need := match app with Some _ => true | None => false end in
   do (si, est) <- int_siginfo sg need;
@@ -382,38 +416,8 @@ Definition make_interest (nm : name) (cfg : iconfig) (app : option (list bytes))
   let pwire := packet_bufs 5 il ibufs in
   if negb (plan_ok pplan pwire) then Panic else
   let wire := bufs_of pwire in
-  do (wire1, svlen, cov1) <-
-     (if 0 <? est then
-        match idx with
-        | None => Err                                           (* SignatureValue_wireIdx < 0 *)
-        | Some ix =>
-            match sign cov with
-            | None => Err
-            | Some sv => if est <? blen sv then Err else do w1 <- patch_sig wire ix sv; Ok (w1, blen sv, cov)
-            end
-        end
-      else Ok (wire, 0, []));
-  do (wire2, final) <-
-     (if need then
-        match wire1 with
-        | [] => Panic
-        | b0 :: rest =>
-            match parse_tlnum b0 with
-            | None => Panic
-            | Some (_, s1) =>
-                match parse_tlnum (skipn s1 b0) with
-                | None => Panic
-                | Some (_, s2) =>
-                    let dpos := (npos + s1 + s2)%nat in
-                    let aplen := tl_len (wire_len (match app with Some a => a | None => [] end)) in
-                    if (length b0 <? aplen + 1)%nat then Panic else
-                    let h := sha256 (skipn (length b0 - aplen - 1) b0 ++ concat rest) in
-                    do b0' <- splice b0 dpos h;
-                    Ok (b0' :: rest, removelast nm1 ++ [mkc 2 (firstn 32 h ++ skipn (length (firstn 32 h)) zeros32)])
-                end
-            end
-        end
-      else Ok (wire1, nm1));
+  do (wire1, svlen, cov1) <- int_sig_block wire idx cov est;
+  do (wire2, final) <- (if need then int_digest_block wire1 npos app nm1 else Ok (wire1, nm1));
   if svlen <? est then
     match wire2 with
     | [] => Panic
